@@ -121,6 +121,29 @@ P_C07_Recorded(e) ==
      /\ \A k \in DOMAIN g.dirs : SeqSet(g.dirs[k].cok) = SeqSet(g.dirs[k].fmts) /\ SeqSet(g.dirs[k].sok) = SeqSet(g.dirs[k].fmts)
                                  /\ SeqSet(g.dirs[k].sfmts) = SeqSet(g.dirs[k].fmts)
      /\ SeqSet(g.root.cok) = SeqSet(g.root.fmts) /\ SeqSet(g.root.sok) = SeqSet(g.root.fmts)
+\* C07, relations: two recorded hashes of the same directory and format are equal exactly when the
+\* specification's snapshot signatures of the two trees are equal (content: unlabelled content tree;
+\* structure: labelled tree) - checked for the generation just written against every earlier one
+HsOf(g, rp) == IF rp = Root THEN g.root.hs
+               ELSE LET S == {k \in DOMAIN g.dirs : g.dirs[k].p = rp} IN IF S = {} THEN <<>> ELSE g.dirs[CHOOSE k \in S : TRUE].hs
+P_C07_Relations(e, pre, post) ==
+  \A j \in DOMAIN e.post.hist :
+    LET b == e.post.hist[j] IN
+    (b.h \in Wrote(pre, post)) =>
+      LET n  == Len(b.gens)
+          gn == b.gens[n]
+          sn == DiskOf(gn.snap)
+          paths == {Root} \cup {gn.dirs[k].p : k \in DOMAIN gn.dirs}
+      IN \A i \in 1..(n - 1) : \A rp \in paths :
+           LET gi == b.gens[i]
+               si == DiskOf(gi.snap)
+               hn == HsOf(gn, rp)
+               hi == HsOf(gi, rp)
+               d  == b.h \o rp
+           IN \A x \in DOMAIN hn : \A y \in DOMAIN hi :
+                (hn[x].f = hi[y].f) =>
+                   /\ (hn[x].c = hi[y].c) <=> (CSig(sn, d, gn.croot, gn.ceff) = CSig(si, d, gi.croot, gi.ceff))
+                   /\ (hn[x].s = hi[y].s) <=> (SSig(sn, d, gn.croot, gn.ceff) = SSig(si, d, gi.croot, gi.ceff))
 P_C02_Paths(e) ==
   \A j \in DOMAIN e.post.hist : \A i \in DOMAIN e.post.hist[j].gens :
      LET g == e.post.hist[j].gens[i] IN
@@ -186,6 +209,8 @@ Verdict(e) ==
                P_C14_DiskSame |-> e.pre.disk = e.post.disk,
                P_C11_Valid |-> P_C11_Valid(e),
                P_C07_Recorded |-> P_C07_Recorded(e),
+               P_C07_Relations |-> (e.op.op = "create") => P_C07_Relations(e, pre, post),
+               P_C07_Printed |-> (e.op.op = "verifydh" /\ e.op.co /\ e.exit = 0) => (e.co.bad = <<>> /\ e.co.printed = e.co.good /\ e.co.printed >= e.co.ndirs),
                P_C02_Paths |-> P_C02_Paths(e),
                P_C08_RefBytes |-> P_C08_RefBytes(e),
                P_C08_Order |-> (e.op.op \in {"create", "createsf"}) => P_C08_Order(e, pre, post)]
@@ -234,6 +259,17 @@ Verdict(e) ==
               A_unchanged |-> Len(GensOf(pre, o.R)) > 0 /\ Unchanged(dk, sld, o.R, ign),
               A_nested |-> Cardinality(Visible(pre, dk, o.R)) > 1,
               A_ign |-> ign # {}]
+     ELSE IF o.op = "verifydh"
+     THEN LET m == VerifyDHResult(pre, dk, o.R, o.Pabs)
+          IN base @@
+             [kind |-> "verifydh",
+              M_exit |-> (o.h = "" /\ ~o.co) => m.exit = ob.exit,
+              P_C09_Identical |-> P_C09_Identical(pre, dk, o, ob),
+              P_C09_Detects |-> P_C09_Detects(pre, dk, o, ob),
+              P_C09_NoInternal |-> P_C09_NoInternal(o, ob),
+              A_uniform |-> UniformFormats(pre, dk, o.R),
+              A_dh |-> \E h \in Visible(pre, dk, o.R) : DHGens(pre, h) # {},
+              A_changed |-> DHGens(pre, o.R) # {} /\ \A i \in DHGens(pre, o.R) : ~SameAsGen(pre, dk, o.R, i, o.R, ob.eff)]
      ELSE IF o.op = "flatten"
      THEN LET fl == FlatOf(e)
               m  == FlattenResult(pre, o.R)
